@@ -126,7 +126,7 @@ impl Property for C04 {
         "C04"
     }
     fn rule(&self) -> &'static str {
-        "case = (a) function x simultaneous replacement map (1..4 entries, degree<=2, may mention replaced variables) | (b) instance x replacement map over remaining variables, optionally two successive substitute calls (chains) or log_encode->substitute, x in-bound state, then evaluate | (c) raw dependency graph on <=5 dependent variables (DAG, chain, diamond, cycle, self-loop, dangling) evaluated under every iteration order of the dependency HashMap (map rebuilt until all n! orders were observed); \
+        "case = (a) function x simultaneous replacement map (1..4 entries, degree<=2, may mention replaced variables; also pure renaming maps whose targets are keys) | (b) instance x replacement map over remaining variables, optionally two successive substitute calls (chains) or log_encode->substitute, x in-bound state, then evaluate (a replaced variable may carry a value recorded earlier) | (c) raw dependency graph on <=5 dependent variables (DAG, chain, diamond, cycle, self-loop, dangling) evaluated under every iteration order of the dependency HashMap (map rebuilt until all n! orders were observed), failing graphs also through evaluate_samples; \
          oracle = exact simultaneous composition; reference evaluator with topological dependency evaluation; non-trivial = >=2 replacements with one of degree>=1, or chain length>=2, or cyclic/dangling graph; distinct = sha256(case)"
     }
     fn required_labels(&self) -> Vec<String> {
